@@ -2104,6 +2104,10 @@ func c13Seek(c *Ctx) {
 }
 
 var c13Mutants = []Mutant{
+	{Name: "location-host-fixup-widened", File: "registry/remote/repository.go",
+		Old:    "\tif reqPort == \"443\" && locationHostname == reqHostname && locationPort == \"\" {",
+		New:    "\tif reqPort == \"443\" || locationHostname == reqHostname && locationPort == \"\" {",
+		Expect: "C13.R4.location-host-fixup-guarded"},
 	{Name: "mount-always-plain-http", File: "registry/remote/repository.go",
 		Old:    "\turl := buildRepositoryBlobMountURL(s.repo.PlainHTTP, s.repo.Reference, desc.Digest, fromRepo)",
 		New:    "\turl := buildRepositoryBlobMountURL(true, s.repo.Reference, desc.Digest, fromRepo)",
